@@ -119,6 +119,9 @@ func init() {
 	for i := 0; i < r.NumMethod(); i++ {
 		reservedGetters[r.Method(i).Name] = true
 	}
+	// the generated struct embeds *container.Container,
+	// a field and a method of the same struct cannot have the same name
+	reservedGetters[r.Elem().Name()] = true
 }
 
 func ValidateServiceGetter(s Service) error {
